@@ -165,13 +165,19 @@ func verifyLemma(p *Program, l *Lemma, timeoutS int) *FuncResult {
 				record(goals, r)
 				return
 			}
+			// the shows of a lemma are proved in order: later ones may use the earlier ones
 			var wg2 sync.WaitGroup
-			for _, g := range goals {
+			for gi, g := range goals {
 				g := g
+				var hyp strings.Builder
+				for _, h := range goals[:gi] {
+					hyp.WriteString("(assert " + h.t.S + ")\n")
+				}
+				hs := hyp.String()
 				wg2.Add(1)
 				go func() {
 					defer wg2.Done()
-					r := solveStaged(prefix+"(assert (not "+g.t.S+"))\n(check-sat)\n", timeoutS)
+					r := solveStaged(prefix+hs+"(assert (not "+g.t.S+"))\n(check-sat)\n", timeoutS)
 					record([]goalT{g}, r)
 				}()
 			}
